@@ -62,6 +62,17 @@ KEYS = ["j", "k", "l", "h", "w", "b", "$", "0", "G", "1G", "5G", "H", "M", "L", 
         "H>k", "Hjg~2k", "Hdk", "Hd2k", "H2>k", "Hyk", "H!kcat\n", "Hc2k\x05x\x1b", "\x06>k", "\x06jg~2k", "L>j", "Ldj", "Lg~2j", "Lcj\x05y\x1b", "L!jcat\n", "\x02L>j", "HkJ", "L3J",
         "L\x19", "L8|\x19", "L14|2\x19", "H\x05", "H9|\x05", "H15|3\x05", "L$\x19", "H$\x05", "12|", "20|"]
 WKEYS = ["\x17s", "\x17j", "\x17k", "\x17o", "\x17c", "\x17x"]
+# the small families of KEYS get a share of their own (a flat choice among ~170 keys would pick each of them once in a few histories)
+FAMILIES = [[k for k in KEYS if k.startswith(":") and "|" in k],                                                    # failing tails
+            [k for k in KEYS if k.startswith("\x0c") or k.startswith(":!") or k in ("Lo\x05low\x1b", "GA\x05q\nr\x1b")],     # re-initialisation
+            [k for k in KEYS if len(k) > 40 or "\x10" in k or "\x12a" in k],                                           # several lines from one insert
+            [k for k in KEYS if k[0] in "HL\x06\x02" and len(k) > 1],                                                   # window-edge operators and scrolls
+            [k for k in KEYS if k[0] in "ydlmw" and len(k) > 2 and k[-1] in "pP"]]                                      # multi-line puts
+
+
+def keys_strategy(extra):
+    flat = st.sampled_from(KEYS + extra)
+    return st.one_of([flat] * 7 + [st.sampled_from(f) for f in FAMILIES])
 
 
 @st.composite
@@ -81,7 +92,7 @@ def case(draw):
         for i in range(len(lines)):
             if draw(st.integers(0, 2)):
                 lines[i] = draw(rtlline) + (lines[i] if draw(st.integers(0, 3)) == 0 else "")
-    keys = draw(st.lists(st.sampled_from(KEYS + (WKEYS * 3 if win else []) + (RTLKEYS * 2 if rtl else [])), min_size=1, max_size=25))
+    keys = draw(st.lists(keys_strategy((WKEYS * 3 if win else []) + (RTLKEYS * 2 if rtl else [])), min_size=1, max_size=25))
     return {"lines": lines, "rows": rows, "cols": cols, "keys": keys, "win": win, "rtl": rtl}
 
 
